@@ -895,7 +895,9 @@ func SkipAllInvalidReferenceEntriesForRef(storer gitstore.Storer, targetRef stri
 	entriesToSkip := []githash.Hash{}
 
 	for {
-		if entry, ok := iterator.(*ReferenceEntry); ok {
+		// Only entries for the target ref can be invalidated by a rewrite of its
+		// history; entries for other refs are unrelated to its current target.
+		if entry, ok := iterator.(*ReferenceEntry); ok && entry.RefName == targetRef {
 			isAncestor, err := storer.KnowsCommit(latestEntry.GetTargetID(), entry.TargetID)
 			if err != nil {
 				return err
